@@ -15,9 +15,29 @@ Model of the row / metadata handling of the tsquery report filters over the slic
                               `ret = append(ret, make([]any, nExpected)...)`
         inner / full        : `var ret []any` (nil slice) and the same loop
 
+  * ReplaceFieldFilter  report/replace_field_report_filter.go:51-54 (metadata), :58-71 (row)
+        `newValue := make([]any, len(record.Value)); copy(newValue, record.Value); newValue[replaceIdx] = value`
+        (`replaceRow`; the metadata slice is built the same way, also by OverrideFieldMetadataFilter,
+        report/override_field_metadata_report_filter.go:82-87, which hands the row STREAM on unchanged)
+  * DropFieldsFilter    report/drop_fields_filter.go:58-61 (metadata), :66-74 (row): `make([]any, len(keep))`, cell by cell
+        (`dropRow`)
+  * SingleFieldFilter   report/single_field_report_filter.go:32, :40-43: the literals `[]FieldMeta{*fieldMeta}`, `[]any{value}`;
+    ToDatasource ∘ FromDatasource (report/to_datasource.go:49-60 reads `record.Value[fieldIdx]`, report/from_datasource.go:28-36
+    builds `[]FieldMeta{meta}`, `[]any{record.Value}`) is the same row function with a ref value (`singleRow`)
+  * AlignerFilter       report/aligner_report_filter.go:53-89: rows of the first cluster / of an exactly aligned first item
+    are PASSED ON (`Value: firstItem.Value`: no operation here, the register is reused); otherwise
+    `timeWeightedAverageArr` (:115-155): `res := make([]any, len(v1Arr))` filled from two rows (`combineRow`);
+    gap filler (timeseries/ts_gap_filler_stream.go:66-107): data periods pass `prevPoint.Value` on, filled periods are
+    `copyFn(prevPoint.Value)` = `make` + `copy` (:103, `copyRow`) or the interpolation (`combineRow`)
+  * DeltaFilter / RateFilter (datasource/delta_filter.go, rate_filter.go) work on scalars; seen through the two bridges
+    they are a fresh one-cell row computed from two consecutive rows (`combineRow`)
+  * ConditionFilter (report/condition_report_filter.go:44-55) and the harness' row dropper hand rows and metadata on.
+
 Cells are `Val`s (`nil` = Go nil interface / zero value); a metadata cell is the field's urn id as an `int`.
-Value suppliers: constant and ref (`row[idx]`, report/ref_report_field_value.go:29-31) — enough to make
-every row operation read the current row.
+Value suppliers (`ValFn`): constant, ref (`row[idx]`, report/ref_report_field_value.go:29-31), nvl
+(nvl_report_field_value.go:65-85), numeric expression (numeric_expression_report_field_value.go:86-106), selector over a
+greater-than condition (selector_report_field_value.go:99-121, condition_report_field_value.go:69-79), cast
+(cast_field_report_value.go:62-74).  `ValFn.eval` is a function of the row's VALUES: a supplier only reads cells.
 Every `append` takes its own growth-oracle value.
 
 `ROp`/`runR`: a *row program* — a sequence of row/metadata operations, each reading earlier registers
@@ -38,15 +58,53 @@ inductive Val
 
 instance : Inhabited Val := ⟨Val.nil⟩
 
+/-- Binary integer operations of the value suppliers / single-field filters. -/
+inductive BinOp
+  | add                       -- tsquery.AddInt
+  | sub                       -- tsquery.SubInt (DeltaFilter, datasource/delta_filter.go:104)
+  | rate (dtHalf : Nat)       -- RateFilter (rate_filter.go:99 `(delta / timeDiff) * perSeconds`, perSeconds = 1) cast back to
+                              -- an integer (`int64(float)`: truncation); `dtHalf` = time difference in half seconds
+  | twa (num den : Nat)       -- timeWeightedAverageArr: `int64(v1 + (v2-v1)*(num/den))` in float64
+  deriving DecidableEq, Repr
+
+/-- `int64(v1 + (v2 - v1) * weight)` with `weight = num/den`, in IEEE doubles as the Go code computes it. -/
+def twaInt (num den : Nat) (a b : Int) : Int :=
+  let w := Float.ofNat num / Float.ofNat den
+  let v1 := Float.ofInt a
+  let v2 := Float.ofInt b
+  (v1 + (v2 - v1) * w).toInt64.toInt
+
+def BinOp.app : BinOp → Int → Int → Int
+  | .add, a, b => a + b
+  | .sub, a, b => a - b
+  | .rate dt, a, b => (2 * (a - b)).tdiv dt
+  | .twa n d, a, b => twaInt n d a b
+
 inductive ValFn
   | const (v : Val)
   | ref (idx : Nat)
+  | nvl (src alt : ValFn)
+  | bin (op : BinOp) (a b : ValFn)
+  | selGt (a b t f : ValFn)
+  | cast (a : ValFn)
   deriving DecidableEq, Repr
+
+def valGt : Val → Val → Bool
+  | .int a, .int b => a > b
+  | _, _ => false               -- tsquery.WrapComparisonWithNilChecks
 
 def ValFn.eval (f : ValFn) (row : List Val) : Val :=
   match f with
   | .const v => v
   | .ref i => row.getD i Val.nil
+  | .nvl s a => match s.eval row with
+    | .nil => a.eval row
+    | v => v
+  | .bin op a b => match a.eval row, b.eval row with
+    | .int x, .int y => .int (op.app x y)
+    | _, _ => .nil              -- numeric expression over optional operands: nil if one is nil
+  | .selGt a b t f => if valGt (a.eval row) (b.eval row) then t.eval row else f.eval row
+  | .cast a => a.eval row      -- integer -> decimal -> integer (nil stays nil)
 
 def hd (gs : List Nat) : Nat := gs.headD 0
 
@@ -91,6 +149,39 @@ def leftJoinRow (h : Heap Val) (left : Slice) (others : List (Option Slice × Na
 def concatJoinRow (h : Heap Val) (sides : List (Option Slice × Nat)) (gs : List Nat) : Heap Val × Slice :=
   joinLoop h nilSlice sides gs
 
+/-- replace_field_report_filter.go:58-71 (and :51-54 for the metadata, override_field_metadata_report_filter.go:82-85):
+    the value is computed from the received row, then `make(len)` + `copy` and the index write into the NEW array. -/
+def replaceRow (h : Heap Val) (rec : Slice) (idx : Nat) (f : ValFn) : Heap Val × Slice :=
+  let v := f.eval (view h rec)
+  let a := allocWith h (view h rec) 0
+  (setIdx a.1 a.2 idx v, a.2)
+
+/-- The in-place variant `append(record.Value[:replaceIdx], value)` followed by
+    `append(newValue, record.Value[replaceIdx+1:]...)`.  Only used by the witness theorem. -/
+def replaceRowInPlace (h : Heap Val) (rec : Slice) (idx : Nat) (f : ValFn) (g1 g2 : Nat) : Heap Val × Slice :=
+  let v := f.eval (view h rec)
+  let a := append h (reslice rec 0 idx) v g1
+  appendMany a.1 a.2 (view a.1 (reslice rec (idx + 1) rec.len)) g2
+
+/-- drop_fields_filter.go:66-74 (rows), :58-61 (metadata): `make(len(keep))`, `new[i] = old[keep[i]]`. -/
+def dropRow (h : Heap Val) (rec : Slice) (keep : List Nat) : Heap Val × Slice :=
+  allocWith h (keep.map (fun i => (view h rec).getD i Val.nil)) 0
+
+/-- single_field_report_filter.go:40-43 `[]any{value}`; from_datasource.go:33 after to_datasource.go:52-55 (`f` = a ref);
+    the metadata literals single_field_report_filter.go:32, from_datasource.go:29. -/
+def singleRow (h : Heap Val) (rec : Slice) (f : ValFn) : Heap Val × Slice :=
+  allocWith h [f.eval (view h rec)] 0
+
+/-- aligner_report_filter.go:103 `c := make([]any, len(v)); copy(c, v)` (forward fill of a period without data). -/
+def copyRow (h : Heap Val) (rec : Slice) : Heap Val × Slice :=
+  allocWith h (view h rec) 0
+
+/-- aligner_report_filter.go:138-152 `res := make([]any, len(v1Arr))`, every cell computed from the two rows; also the
+    delta / rate filters seen through the bridges (a one-cell row from two consecutive rows).  The value functions see
+    the cells of `a` followed by the cells of `b`. -/
+def combineRow (h : Heap Val) (a b : Slice) (fs : List ValFn) : Heap Val × Slice :=
+  allocWith h (fs.map (fun f => f.eval (view h a ++ view h b))) 0
+
 /-! ### metadata functions -/
 
 /-- append_field_report_filter.go:38. -/
@@ -121,6 +212,11 @@ inductive ROp
   | concatJoin (sides : List (Option Nat × Nat)) (gs : List Nat)
   | appendMeta (src : Nat) (urn : Val) (g : Nat)
   | selectMeta (src : Nat) (urns : List Val) (gs : List Nat)
+  | replaceRow (src idx : Nat) (f : ValFn)          -- rows of ReplaceField; metadata of ReplaceField / OverrideFieldMetadata
+  | dropRow (src : Nat) (keep : List Nat)           -- rows and metadata of DropFields
+  | singleRow (src : Nat) (f : ValFn)               -- SingleField, ToDatasource ∘ FromDatasource (rows and metadata)
+  | copyRow (src : Nat)                             -- forward fill
+  | combineRow (a b : Nat) (fs : List ValFn)        -- interpolation; delta / rate through the bridges
   deriving Repr
 
 structure RState where
@@ -153,6 +249,21 @@ def stepR (st : RState) (op : ROp) : RState :=
   | .selectMeta src us gs =>
     let r := selectMeta st.heap (st.reg src) us gs
     { heap := r.1, regs := st.regs ++ [r.2.1] }
+  | .replaceRow src idx f =>
+    let r := replaceRow st.heap (st.reg src) idx f
+    { heap := r.1, regs := st.regs ++ [r.2] }
+  | .dropRow src keep =>
+    let r := dropRow st.heap (st.reg src) keep
+    { heap := r.1, regs := st.regs ++ [r.2] }
+  | .singleRow src f =>
+    let r := singleRow st.heap (st.reg src) f
+    { heap := r.1, regs := st.regs ++ [r.2] }
+  | .copyRow src =>
+    let r := copyRow st.heap (st.reg src)
+    { heap := r.1, regs := st.regs ++ [r.2] }
+  | .combineRow a b fs =>
+    let r := combineRow st.heap (st.reg a) (st.reg b) fs
+    { heap := r.1, regs := st.regs ++ [r.2] }
 
 def runR (st : RState) (ops : List ROp) : RState := ops.foldl stepR st
 
@@ -178,6 +289,11 @@ def specStepR (vals : List (List Val)) : ROp → List Val
   | .concatJoin os _ => specSides vals os
   | .appendMeta src u _ => vals.getD src [] ++ [u]
   | .selectMeta _ us _ => us
+  | .replaceRow src idx f => (vals.getD src []).set idx (f.eval (vals.getD src []))
+  | .dropRow src keep => keep.map (fun i => (vals.getD src []).getD i Val.nil)
+  | .singleRow src f => [f.eval (vals.getD src [])]
+  | .copyRow src => vals.getD src []
+  | .combineRow a b fs => fs.map (fun f => f.eval (vals.getD a [] ++ vals.getD b []))
 
 def specRunR (vals : List (List Val)) (ops : List ROp) : List (List Val) :=
   ops.foldl (fun vs op => vs ++ [specStepR vs op]) vals
@@ -190,12 +306,18 @@ def ROp.shape : ROp → ROp
   | .concatJoin os _ => .concatJoin os []
   | .appendMeta s u _ => .appendMeta s u 0
   | .selectMeta s us _ => .selectMeta s us []
+  | op => op                     -- `make` / slice literals: no growth choice
 
 /-! ### chain pipelines advanced in an arbitrary interleaving -/
 
 inductive Stage
   | append (f : ValFn) (g : Nat)
   | select (fs : List ValFn) (gs : List Nat)
+  | replace (idx : Nat) (f : ValFn)
+  | drop (keep : List Nat)
+  | single (f : ValFn)
+  | copy                       -- forward-filled period
+  | pass                       -- OverrideFieldMetadata / Condition / aligned data period: the SAME slice is handed on
   deriving Repr
 
 /-- A pipeline in flight: the slice it currently holds and the stages still to run. -/
@@ -207,6 +329,11 @@ structure Task where
 def stepStage (h : Heap Val) (cur : Slice) : Stage → Heap Val × Slice
   | .append f g => appendRow h cur f g
   | .select fs gs => selectRow h cur fs gs
+  | .replace idx f => replaceRow h cur idx f
+  | .drop keep => dropRow h cur keep
+  | .single f => singleRow h cur f
+  | .copy => copyRow h cur
+  | .pass => (h, cur)
 
 def stepTask (h : Heap Val) (t : Task) : Heap Val × Task :=
   match t.todo with
@@ -228,6 +355,11 @@ def runSched (h : Heap Val) (ts : List Task) : List Nat → Heap Val × List Tas
 def specStage (row : List Val) : Stage → List Val
   | .append f _ => row ++ [f.eval row]
   | .select fs _ => specSelect row fs
+  | .replace idx f => row.set idx (f.eval row)
+  | .drop keep => keep.map (fun i => row.getD i Val.nil)
+  | .single f => [f.eval row]
+  | .copy => row
+  | .pass => row
 
 def specChain (row : List Val) (stages : List Stage) : List Val := stages.foldl specStage row
 
